@@ -202,6 +202,13 @@ inductive Found where
   | none
   deriving DecidableEq, Repr, Inhabited
 
+/-- index of the `(` that follows token `i` after blanks (not line ends), if that is what follows:
+`trim_whitespace_start(&tokens[i + 1..])`, `activate_pos = tokens.len() - trimmed.len()` -/
+def parenAfter (toks : List PTok) (i : Nat) : Option Nat :=
+  match trimStart (toks.drop (i + 1)) with
+  | ⟨.lparen, _⟩ :: tail => some (toks.length - (tail.length + 1))
+  | _ => none
+
 /-- the `for macro_index in 0..macros.len()` loop for the identifier `name` at index `i` -/
 def matchMacro (toks : List PTok) (i : Nat) (name : String) (sp : SearchPos) :
     Nat → List Entry → Option Nat
@@ -211,12 +218,10 @@ def matchMacro (toks : List PTok) (i : Nat) (name : String) (sp : SearchPos) :
     else if sp.lastFn = some mi ∧ i < sp.next then matchMacro toks i name sp (mi + 1) es
     else if name = e.m.name then
       if e.m.isFunction then
-        let trimmed := trimStart (toks.drop (i + 1))
-        let activate := toks.length - trimmed.length
-        match trimmed with
-        | ⟨.lparen, _⟩ :: _ =>
+        match parenAfter toks i with
+        | some activate =>
           if activate < sp.next then matchMacro toks i name sp (mi + 1) es else some mi
-        | _ => matchMacro toks i name sp (mi + 1) es
+        | none => matchMacro toks i name sp (mi + 1) es
       else if i < sp.next then matchMacro toks i name sp (mi + 1) es
       else some mi
     else matchMacro toks i name sp (mi + 1) es
